@@ -82,6 +82,12 @@ def build(ctx, rnd, gens):
             step2 = anncases.step_of(b1, rnd, order, dict(base, skip_unrecognised=True) if dot is None else base, must=True)
             step2["must"]["data.unknownext"] = dot is not None
             add(unk, [step2], cls="unrecognised-skipped", dot=dot, position=pos)
+        # binary content behind a commentable name among good files: documented to go to a .license sibling, so every
+        # file of the invocation is processed and the exit status is 0
+        binf = good + [{"name": "blob.py", "kind": "binary", "style_name": "python"}]
+        for pos in (0, 2, 3):
+            order = names[:pos] + ["blob.py"] + names[pos:]
+            add(binf, [anncases.step_of(b1, rnd, order, base, must=True)], cls="binary-among-good", dot=dot, position=pos)
         # --single-line / --multi-line with file types of mixed capability: a usage error whatever the argument order
         mixed = [{"name": "alpha.py", "kind": "code", "style_name": "python"}, {"name": "page.html", "kind": "code", "style_name": "html"},
                  {"name": "beta.py", "kind": "comment", "style_name": "python"}, {"name": "prog.c", "kind": "code", "style_name": "c"},
